@@ -1,1 +1,14 @@
-fn main() {}
+//! Monitors for the gossip wire format: C15 (messages round-trip and have a unique encoding).
+mod c15;
+
+fn main() {
+    vcommon::install_panic_hook();
+    let args = vcommon::Args::parse();
+    match args.prop.as_str() {
+        "C15" => c15::run(&args),
+        p => {
+            eprintln!("h-wire: unknown property {p}");
+            std::process::exit(2);
+        }
+    }
+}
